@@ -11,7 +11,7 @@ theorem Inv.buildStart {P : Program} {s s' : St} {k : Key}
     (h1 : s'.env = s.env) (h2 : s'.epoch = s.epoch) (h3 : s'.mem = s.mem)
     (h4 : s'.db = s.db) (h5 : s'.dbIter = s.dbIter) (h6 : s'.status = fun _ => .idle) (h7 : s'.task = fun _ => {})
     (h8 : s'.pending = []) (h9 : s'.target = some k) (h10 : s'.started = false)
-    (h11 : s'.validSeen = fun _ => none)
+    (h11 : s'.validSeen = fun _ => none) (h12 : s'.registered = s.registered) (h13 : s'.sigAt = s.sigAt)
     (ht : s.target = none)
     (hi : Inv P s) : Inv P s' := by
   have hidle := hi.stIdle ht
@@ -43,12 +43,14 @@ theorem Inv.buildStart {P : Program} {s s' : St} {k : Key}
   · intro x hfl; rw [hnf'] at hfl; cases hfl
   · intro x hx; rw [h6] at hx; cases hx
   · intro _ x _; rw [h11]
+  · rw [h12, h13]; exact hi.sigAtOk
+  · intro x hx; rw [h6] at hx; cases hx
 
 theorem Inv.queueCreated {P : Program} {s s' : St}
     (h1 : s'.env = s.env) (h2 : s'.epoch = s.epoch + 1) (h3 : s'.mem = s.mem)
     (h4 : s'.db = s.db) (h5 : s'.dbIter = s.dbIter) (h6 : s'.status = s.status) (h7 : s'.task = s.task)
     (h8 : s'.pending = s.pending) (h9 : s'.target = s.target) (h10 : s'.started = true)
-    (h11 : s'.validSeen = s.validSeen)
+    (h11 : s'.validSeen = s.validSeen) (h12 : s'.registered = s.registered) (h13 : s'.sigAt = s.sigAt)
     (ht : s.target.isSome = true) (hns : s.started = false)
     (hi : Inv P s) : Inv P s' := by
   have hidle := hi.notStarted ht hns
@@ -80,12 +82,14 @@ theorem Inv.queueCreated {P : Program} {s s' : St}
   · intro x hfl; rw [hnf'] at hfl; cases hfl
   · intro x hx; rw [h6, hidle x] at hx; cases hx
   · rw [h9, h6, h11]; exact hi.validIdle
+  · rw [h12, h13]; exact hi.sigAtOk
+  · intro x hx; rw [h6, hidle x] at hx; cases hx
 
 theorem Inv.dbIter {P : Program} {s s' : St}
     (h1 : s'.env = s.env) (h2 : s'.epoch = s.epoch) (h3 : s'.mem = s.mem)
     (h4 : s'.db = s.db) (h5 : s'.dbIter = s.epoch) (h6 : s'.status = s.status) (h7 : s'.task = s.task)
     (h8 : s'.pending = s.pending) (h9 : s'.target = s.target) (h10 : s'.started = s.started)
-    (h11 : s'.validSeen = s.validSeen)
+    (h11 : s'.validSeen = s.validSeen) (h12 : s'.registered = s.registered) (h13 : s'.sigAt = s.sigAt)
     (hi : Inv P s) : Inv P s' := by
   have hi' : Inv P { s with dbIter := s.epoch } := by
     have := hi
@@ -113,13 +117,15 @@ theorem Inv.dbIter {P : Program} {s s' : St}
     · exact hi.inflightActive
     · exact hi.validOk
     · exact hi.validIdle
-  exact Inv.congr (s := { s with dbIter := s.epoch }) h1 h2 h3 h4 h5 h6 h7 h8 h9 h10 h11 hi'
+    · exact hi.sigAtOk
+    · exact hi.scanReg
+  exact Inv.congr (s := { s with dbIter := s.epoch }) h1 h2 h3 h4 h5 h6 h7 h8 h9 h10 h11 h12 (fun k _ => by rw [h13]) hi'
 
 theorem Inv.mutate {P : Program} {s s' : St}
     (h2 : s'.epoch = s.epoch) (h3 : s'.mem = s.mem)
     (h4 : s'.db = s.db) (h5 : s'.dbIter = s.dbIter) (h6 : s'.status = s.status) (h7 : s'.task = s.task)
     (h8 : s'.pending = s.pending) (h9 : s'.target = s.target) (h10 : s'.started = s.started)
-    (h11 : s'.validSeen = s.validSeen)
+    (h11 : s'.validSeen = s.validSeen) (h12 : s'.registered = s.registered) (h13 : s'.sigAt = s.sigAt)
     (ht : s.target = none)
     (hi : Inv P s) : Inv P s' := by
   have hidle := hi.stIdle ht
@@ -151,5 +157,7 @@ theorem Inv.mutate {P : Program} {s s' : St}
   · intro k hfl; rw [hf, hnf] at hfl; cases hfl
   · intro k hk; rw [h6, hidle k] at hk; cases hk
   · intro h; rw [h9, ht] at h; cases h
+  · rw [h12, h13]; exact hi.sigAtOk
+  · intro k hk; rw [h6, hidle k] at hk; cases hk
 
 end LLBuild.Engine
